@@ -138,7 +138,7 @@ func runC08(c *core.Ctx) {
 	} else {
 		c.SetDeadline(5 * 60e9)
 	}
-	c.SetRule("BFS over connection-lifecycle event sequences from a never-connected real session; per-connection monitor (first message, application traffic window, FromApp window, logout notification, channel closure) on every transition")
+	c.SetRule("BFS over connection-lifecycle event sequences from a never-connected real session; per-connection monitor (first message, application traffic window, FromApp window, logout notification, channel closure) on every transition; plus, on a real Initiator+Acceptor pair inside a testing/synctest bubble: every path of a small model-pair state graph (a send on either side, one cut or file-store restart) replayed with plain cuts and with the writes failing first, judged by R1-R4 on the stamped wire log and the notifications (an engine that makes no further progress is reported by a real-time watchdog)")
 	c.Assume("relative state keys", "timer events enabled exactly when the virtual timer is armed; Logon/LogoutTimeout enabled in logon/logout state (stale timers included)",
 		"order of transmitted messages is exact (channel FIFO); order between transmissions and callbacks within one transition is not observed")
 	for _, ini := range []bool{false, true} {
@@ -169,5 +169,6 @@ func runC08(c *core.Ctx) {
 		runSearch(c, sp)
 	}
 	runConformance(c)
+	runC08E2E(c)
 	c.Set("depth", depth)
 }
